@@ -76,7 +76,7 @@ void *serial_create(char *special, char *flags)
     SerialDev *ser = (SerialDev *)xmalloc(sizeof(SerialDev));
 
     ser->special = xstrdup(special);
-    ser->flags = xstrdup(flags);
+    ser->flags = xstrdup(flags ? flags : "");     /* no flags: defaults */
 
     return (void *)ser;
 }
